@@ -25,7 +25,7 @@ EXPLANATION = ("Theorems: the validator accepts a ballot iff it has scores, all 
                "profile is accepted iff every ballot is; rejection is TypeError and produces no state list; totals are "
                "sum over ballots of weight x score; subclass parameterisation.")
 
-N_QUICK, N_THOROUGH = 2400, 28800
+N_QUICK, N_THOROUGH = 2400, 86400
 CLASSES = ["GeneralRating", "Rating", "Limited", "Cumulative", "Approval", "BlocPlurality"]
 
 
